@@ -1733,6 +1733,27 @@ func (m *Machine) convert(st *State, v Val, from, to types.Type) (Val, bool) {
 		}
 	case fb != nil && tb != nil && fb.Info()&types.IsString != 0 && tb.Info()&types.IsString != 0:
 		return v, true
+	case fb != nil && fb.Info()&types.IsString != 0 && tb == nil:
+		// string -> []byte / []rune
+		if sl, ok := to.Underlying().(*types.Slice); ok {
+			if s, ok := v.(string); ok {
+				arr := &ArrayV{}
+				if eb, _ := sl.Elem().Underlying().(*types.Basic); eb != nil && eb.Kind() == types.Uint8 {
+					for i := 0; i < len(s); i++ {
+						arr.E = append(arr.E, int64(s[i]))
+					}
+				} else {
+					for _, r := range s {
+						arr.E = append(arr.E, int64(r))
+					}
+				}
+				id := st.alloc(types.NewArray(sl.Elem(), int64(len(arr.E))), arr)
+				return SliceV{Obj: id, Len_: len(arr.E), Cap: len(arr.E)}, true
+			}
+			if o, ok := v.(OpaqueV); ok {
+				return OpaqueV{"bytes(" + o.Name + ")"}, true
+			}
+		}
 	case tb != nil && tb.Info()&types.IsString != 0:
 		// []byte / []rune -> string
 		if sl, ok := from.Underlying().(*types.Slice); ok {
